@@ -13,6 +13,7 @@ import (
 	"math/rand"
 	"net/http"
 	"net/url"
+	"strings"
 
 	"github.com/WICG/webpackage/go/bundle"
 	bversion "github.com/WICG/webpackage/go/bundle/version"
@@ -146,6 +147,69 @@ func hugeRun(args []string) error {
 					}
 				}
 			}
+		}
+	case "variants":
+		// the cap on the number of possible keys of one URL's variant set (10000, inclusive) from both sides: 9999, 10000 and
+		// 10001 possible keys, covered completely by ten representations that each list a tenth of the keys
+		for _, sh := range [][2]int{{99, 101}, {100, 100}, {16, 625}, {73, 137}} {
+			A, B := sh[0], sh[1]
+			n := A * B
+			var ax [2][]string
+			for i := 0; i < A; i++ {
+				ax[0] = append(ax[0], fmt.Sprintf("a%d", i))
+			}
+			for j := 0; j < B; j++ {
+				ax[1] = append(ax[1], fmt.Sprintf("b%d", j))
+			}
+			variants := "Xa;" + strings.Join(ax[0], ";") + ", Xb;" + strings.Join(ax[1], ";")
+			b := &bundle.Bundle{Version: bversion.VersionB1}
+			u, _ := url.Parse("https://a.example/v")
+			b.PrimaryURL = u
+			bodies := map[string]bool{}
+			reps := 10
+			for e := 0; e < reps; e++ {
+				var keys []string
+				for i := e * A / reps; i < (e+1)*A/reps; i++ {
+					for j := 0; j < B; j++ {
+						keys = append(keys, ax[0][i]+";"+ax[1][j])
+					}
+				}
+				if len(keys) == 0 {
+					continue
+				}
+				body := fmt.Sprintf("representation %d of %dx%d", e, A, B)
+				bodies[body] = true
+				b.Exchanges = append(b.Exchanges, &bundle.Exchange{Request: bundle.Request{URL: u}, Response: bundle.Response{Status: 200,
+					Header: http.Header{"Variants": {variants}, "Variant-Key": {strings.Join(keys, ", ")}}, Body: []byte(body)}})
+			}
+			var buf bytes.Buffer
+			_, werr := func() (n int64, err error) {
+				defer func() {
+					if rec := recover(); rec != nil {
+						err = fmt.Errorf("panic: %v", rec)
+					}
+				}()
+				return b.WriteTo(&buf)
+			}()
+			facts := []fact{f("write refused", n > 10000, werr != nil)}
+			if werr == nil {
+				rb, rerr := bundle.Read(bytes.NewReader(buf.Bytes()))
+				facts = append(facts, f("read error", false, rerr != nil))
+				if rerr == nil {
+					got := map[string]bool{}
+					for _, e := range rb.Exchanges {
+						got[string(e.Response.Body)] = true
+					}
+					miss := 0
+					for k := range bodies {
+						if !got[k] {
+							miss++
+						}
+					}
+					facts = append(facts, f("representations missing after read", 0, miss), f("foreign representations after read", 0, len(got)-(len(bodies)-miss)))
+				}
+			}
+			out(fmt.Sprintf("b1 variant set with %d x %d = %d possible keys", A, B, n), facts)
 		}
 	default:
 		return fmt.Errorf("unknown family %q", fam)
